@@ -46,12 +46,13 @@ package hessian
 //@   summary @dyncalls = old(@dyncalls)
 //@   measure [C16:extractvalue-terminates] grows @dyntrue
 //@   loop 1 invariant [C16:extract-unwrap] @dyncalls == old(@dyncalls) && @dyntrue == old(@dyntrue) && @nrec == old(@nrec)
-//@   loop 2 invariant [C16:extract-nil-types] @dyncalls == old(@dyncalls) && @dyntrue == old(@dyntrue) && @nrec == old(@nrec)
-//@   loop 3 invariant [C16:extract-elements] 0 <= i && i <= R.len(v) && @nrec == old(@nrec) + i && @dyntrue == old(@dyntrue) + 1 && @dyncalls == old(@dyncalls) + 1
-//@   loop 4 invariant [C16:extract-entries] rangeindex + 1 <= R.mapLen(v) && @nrec == old(@nrec) + 2 * (rangeindex + 1) && @dyntrue == old(@dyntrue) + 1 && @dyncalls == old(@dyncalls) + 1
-//@   loop 5 invariant [C16:extract-fields] 0 <= i && i <= R.numField(v) && @nrec == old(@nrec) + i && @dyntrue == old(@dyntrue) + 1 && @dyncalls == old(@dyncalls) + 1
+//@   loop 2 invariant [C16:extract-followed-pointers] @dyncalls == old(@dyncalls) && @dyntrue == old(@dyntrue) && @nrec == old(@nrec)
+//@   loop 3 invariant [C16:extract-nil-types] @dyncalls == old(@dyncalls) && @dyntrue == old(@dyntrue) && @nrec == old(@nrec)
+//@   loop 4 invariant [C16:extract-elements] 0 <= i && i <= R.len(v) && @nrec == old(@nrec) + i && @dyntrue == old(@dyntrue) + 1 && @dyncalls == old(@dyncalls) + 1
+//@   loop 5 invariant [C16:extract-entries] rangeindex + 1 <= R.mapLen(v) && @nrec == old(@nrec) + 2 * (rangeindex + 1) && @dyntrue == old(@dyntrue) + 1 && @dyncalls == old(@dyncalls) + 1
+//@   loop 6 invariant [C16:extract-fields] 0 <= i && i <= R.numField(v) && @nrec == old(@nrec) + i && @dyntrue == old(@dyntrue) + 1 && @dyncalls == old(@dyncalls) + 1
 //@   proves  [C16:extract-one-extractor-call] @dyncalls <= old(@dyncalls) + 1
-//@   proves  [C16:extractor-reached-unless-nil-interface] @dyncalls == old(@dyncalls) ==> R.kind(now(v)) == K.Interface || (R.kind(now(v)) == K.Ptr && len(nilTypes) >= 1) || R.typeOf(now(v)) == _dateType
+//@   proves  [C16:extractor-reached-unless-nil-interface] @dyncalls == old(@dyncalls) ==> R.kind(now(v)) == K.Interface || (R.kind(now(v)) == K.Ptr && (len(nilTypes) >= 1 || len(ptrs) >= 1)) || R.typeOf(now(v)) == _dateType
 //@   proves  [C16:closure-slice-nonempty] @dyntrue == old(@dyntrue) + 1 && (R.kind(now(v)) == K.Array || R.kind(now(v)) == K.Slice) && R.len(now(v)) != 0 ==> @nrec == old(@nrec) + R.len(now(v))
 //@   proves  [C16:closure-slice-empty]    @dyntrue == old(@dyntrue) + 1 && (R.kind(now(v)) == K.Array || R.kind(now(v)) == K.Slice) && R.len(now(v)) == 0 ==> @nrec == old(@nrec) + 1
 //@   proves  [C16:closure-map-empty]      @dyntrue == old(@dyntrue) + 1 && R.kind(now(v)) == K.Map && R.len(now(v)) == 0 ==> @nrec == old(@nrec) + 2
